@@ -23,8 +23,9 @@ class Jitter:
     """wraps Local; counts outstanding transfers (exists/upload/download/delete; listing is not a transfer)"""
     TRANSFERS = ('exists', 'upload', 'upload_stream', 'download', 'download_stream', 'delete')
 
-    def __init__(self, inner, rnd, use_async, fail_on=None, slow_download=0.0):
+    def __init__(self, inner, rnd, use_async, fail_on=None, slow_download=0.0, fail_download=None):
         self.inner, self.rnd, self.use_async = inner, rnd, use_async
+        self.fail_download, self.downloads = fail_download, 0          # the k-th download_stream (1-based) fails, a little later than its siblings start
         self.slow_download = slow_download
         self.lock = threading.Lock()
         self.outstanding = 0
@@ -59,6 +60,14 @@ class Jitter:
                     await asyncio.sleep(self._delay_for(name, delay))
                     if self.fail_on is not None and n >= self.fail_on and name in ('upload_stream', 'download_stream'):
                         raise OSError('injected permanent failure')
+                    if name == 'download_stream' and self.fail_download is not None:
+                        with self.lock:
+                            self.downloads += 1
+                            k = self.downloads
+                        if k == self.fail_download:
+                            await asyncio.sleep(0.05)
+                            raise OSError('injected permanent failure of one download')
+                        await asyncio.sleep(0.2)          # the siblings hold their slots while the failure happens
                     return fn(*a, **k)
                 finally:
                     self._exit()
@@ -69,6 +78,14 @@ class Jitter:
                     time.sleep(self._delay_for(name, delay))
                     if self.fail_on is not None and n >= self.fail_on and name in ('upload_stream', 'download_stream'):
                         raise OSError('injected permanent failure')
+                    if name == 'download_stream' and self.fail_download is not None:
+                        with self.lock:
+                            self.downloads += 1
+                            k = self.downloads
+                        if k == self.fail_download:
+                            time.sleep(0.05)
+                            raise OSError('injected permanent failure of one download')
+                        time.sleep(0.2)                   # the siblings hold their slots while the failure happens
                     return fn(*a, **k)
                 finally:
                     self._exit()
@@ -117,8 +134,23 @@ ON_HANG = None
 FILESETS = [[0, 5, 64, 130, 7], [300, 300, 300], [16, 16, 16, 16, 16, 16, 1000]]
 
 
-async def run_case(base, sizes, n, use_async, seed, fail_on=None, identical=False, slow_download=0.0):
-    d = base / f'case_{len(sizes)}_{n}_{int(use_async)}_{seed}_{fail_on}_{slow_download}'
+class Watchdog:
+    """a command that blocks the EVENT LOOP THREAD itself (so that asyncio.wait_for can never fire) is still a hang: a timer thread
+    reports it"""
+
+    def __enter__(self):
+        self.t = threading.Timer(CASE_TIMEOUT_S + 15, lambda: ON_HANG([{'problem': f'command blocked the event loop for more than {CASE_TIMEOUT_S + 15} s '
+                                                                                   '(normal duration: well under a second)', 'hang': True, 'loop_blocked': True}]))
+        self.t.daemon = True
+        self.t.start()
+        return self
+
+    def __exit__(self, *a):
+        self.t.cancel()
+
+
+async def run_case(base, sizes, n, use_async, seed, fail_on=None, identical=False, slow_download=0.0, fail_download=None):
+    d = base / f'case_{len(sizes)}_{n}_{int(use_async)}_{seed}_{fail_on}_{slow_download}_{fail_download}'
     (d / 'src').mkdir(parents=True)
     files = {}
     for i, sz in enumerate(sizes):
@@ -126,7 +158,9 @@ async def run_case(base, sizes, n, use_async, seed, fail_on=None, identical=Fals
         p.write_bytes(lib.content(7 if identical else i + seed, sz))
         files[str(p.resolve())] = p.read_bytes()
     rnd = random.Random(seed)
-    backend = Jitter(Local(d / 'repo'), rnd, use_async, fail_on, slow_download)
+    backend = Jitter(Local(d / 'repo'), rnd, use_async, fail_on, slow_download, fail_download)
+    if fail_download is not None:
+        fail_on = -1          # a failure is expected to surface
     repo = Repository(backend, concurrent=n, quiet=True, cache_directory=None)
     problems = []
     async def commands():
@@ -156,7 +190,7 @@ async def run_case(base, sizes, n, use_async, seed, fail_on=None, identical=Fals
     elif failed is None:
         problems.append({'problem': 'permanent failure did not surface'})
     # workers that were still in flight when the command failed finish (or are cancelled) on their own: wait for quiescence
-    for _ in range(200):
+    for _ in range(200 if fail_download is None else 2000):
         if repo._slots.qsize() == n and backend.outstanding == 0:
             break
         await asyncio.sleep(0.01)
@@ -193,7 +227,8 @@ def main():
                                 os._exit(0)
                             ON_HANG = on_hang
                             try:
-                                probs = asyncio.run(run_case(base, sizes, n, use_async, sd, fail_on, identical=(sizes == FILESETS[1])))
+                                with Watchdog():
+                                    probs = asyncio.run(run_case(base, sizes, n, use_async, sd, fail_on, identical=(sizes == FILESETS[1])))
                             except Exception as e:
                                 probs = [{'problem': 'harness exception', 'error': f'{type(e).__name__}: {e}'[:300]}]
                             if probs:
@@ -214,11 +249,33 @@ def main():
                 os._exit(0)
             ON_HANG = on_hang2
             try:
-                probs = asyncio.run(run_case(base, [200], 1, use_async, seed, None, slow_download=1.15))
+                with Watchdog():
+                    probs = asyncio.run(run_case(base, [200], 1, use_async, seed, None, slow_download=1.15))
             except Exception as e:
                 probs = [{'problem': 'harness exception', 'error': f'{type(e).__name__}: {e}'[:300]}]
             if probs:
                 failures.append({'id': f'slow{int(use_async)}', 'class': None, 'case': case, 'detail': probs[:3]})
+        # ONE download of a restore fails while its siblings are in flight and further loaders wait for a slot: restore must end with
+        # that error (not hang, not succeed) and give every slot back
+        for use_async in (False, True):
+            for n in (1, 2):
+                cases += 1
+                case = {'sizes': [300, 200], 'concurrent': n, 'async_backend': use_async, 'seed': seed, 'failing_download': 1}
+
+                def on_hang3(probs, case=case):
+                    failures.append({'id': f'dlfail{int(use_async)}_{n}', 'class': None, 'case': case, 'detail': probs})
+                    lib.emit({'status': 'ok', 'cases': cases, 'distinct': cases, 'failures': failures[:10], 'samples': samples,
+                              'exhaustive': False, 'reproduced': True, 'stopped_after_hang': True})
+                    sys.stdout.flush()
+                    os._exit(0)
+                ON_HANG = on_hang3
+                try:
+                    with Watchdog():
+                        probs = asyncio.run(run_case(base, [300, 200], n, use_async, seed, None, fail_download=1))
+                except Exception as e:
+                    probs = [{'problem': 'harness exception', 'error': f'{type(e).__name__}: {e}'[:300]}]
+                if probs:
+                    failures.append({'id': f'dlfail{int(use_async)}_{n}', 'class': None, 'case': case, 'detail': probs[:3]})
     lib.emit({'status': 'ok', 'cases': cases, 'distinct': cases, 'failures': failures[:10], 'samples': samples,
               'exhaustive': False, 'reproduced': bool(failures)})
 
